@@ -890,4 +890,22 @@ theorem folded_table_lookup {α} (S : List α) (hS : S ≠ []) (mi bi vfirst fo 
     have e : mi * (s - fo) = mi * s - mi * fo := by ring
     rw [e, this]; ring
 
+/-- the parameter sets the pipeline clause is claimed for: what PS3.3 allows and the flag stage guarantees -/
+structure WellFormed (p : Params) (st : Stages) : Prop where
+  /-- voi_output_range is increasing (the library refuses anything else) -/
+  range : p.lo < p.hi
+  /-- stages are only chosen where parameters exist (`flag_none_iff_present`: OnlyPresent) -/
+  mod_present : st.modality = true → p.modality ≠ .none
+  voi_present : st.voi = true → p.voi ≠ .none
+  /-- window widths: LINEAR > 1 (width 1 divides by zero), LINEAR_EXACT > 0, SIGMOID != 0 -/
+  win_linear : ∀ c w, st.voi = true → p.voi = .window .linear c w → 1 < w
+  win_exact : ∀ c w, st.voi = true → p.voi = .window .exact c w → 0 < w
+  win_sigmoid : ∀ c w, st.voi = true → p.voi = .window .sigmoid c w → w ≠ 0
+  /-- RescaleSlope is not 0 in front of a window -/
+  slope : ∀ m b fn c w, st.modality = true → p.modality = .rescale m b → st.voi = true → p.voi = .window fn c w → m ≠ 0
+  /-- a VOI LUT is not constant (its scaling divides by max - min) -/
+  voi_lut : ∀ f d, st.voi = true → p.voi = .lut f d → ∃ mn mx, listMin d = some mn ∧ listMax d = some mx ∧ mx ≠ mn
+  /-- a modality LUT has entries -/
+  mod_lut : ∀ f d, st.modality = true → p.modality = .lut f d → d ≠ []
+
 end HdVerif.PixelPipelineLemmas
